@@ -299,7 +299,7 @@ pub const CORPUS: &[&str] = &[
     "permit(principal,action,resource) when { 1 + 2 - 3 + context.n - 4 + 5 == 0 && 1 * 2 * 3 * 4 == 24 && true && false && 1 < 2 || false || true || 2 <= 1 };",
     "permit(principal,action,resource) when { context.a.b.c.d.e == A::B::C::D::\"x\" && principal.f.f.f.f has n && - - - 1 == 1 };",
     // blank lines inside a string literal and inside an entity id, after text that looks like the start of a string / comment
-    "permit(principal,action,resource) when { User::\"a\n\nb\" == principal && \"x // y\n\n\" z\" != \"\n\n\" };",
+    "permit(principal,action,resource) when { User::\"a\n\nb\" == principal && \"x // y\n\n// z\" != \"\n\n\" };",
 ];
 
 fn gen_annotations(r: &mut Rng) -> String {
